@@ -16,6 +16,7 @@ class C09(Prop):
     driver = 'drv_C09'
     model = 'C09'
     level = 'proof'
+    search_scale = 3            # widened search after a broken proof / correspondence: bounded volume per seed
     level_text = ('Machine-checked Coq theorems, for every file-system state, every content type and every operation list, about a '
                   'model that follows File::open and the FileHDF5 constructor statement by statement (missing file => Overwrite except '
                   'ReadOnly which is refused first, mode mapping, create => header, else checkHeader of C10, open-or-create of '
